@@ -312,6 +312,45 @@ def rule_linebreak_uniform(ck, facts):
     ck.setcount("linebreak_helper_methods", n)
 
 
+
+def rule_element_type(ck, facts, R="C16.annotation"):
+    """a sub-pattern is bound with its own type, not with the annotation of the pattern around it"""
+    from ..cfg import DefIndex
+    from ..rules import patcover
+
+    ck.rule(R, "element-type: where a walk over `Pattern` hands a sub-pattern back to itself wrapped in a new TypedPattern (from inside a closure that the walk creates per element), the type put into that TypedPattern is made for the element (the result of a call in the closure) — not the type of the enclosing pattern, which the closure can only see as a captured variable: with `let (d, e): (float, float) = ..` the elements would be typed as the whole tuple, and only annotated destructuring is affected")
+    lang = facts.crate(roles.LANG)
+    n = 0
+    for g in lang.fns:
+        if g.kind != "closure" or "::compiler::" not in g.path or "::test" in g.path:
+            continue
+        root = facts.fn(g.root)
+        if root is None or cover.coverage(facts, root, patcover.PAT) is None:
+            continue
+        if not any((callee(t) or "") == g.root for _, t in g.calls()):
+            continue
+        di = None
+        for b, t in g.calls():
+            if not (callee(t) or "").endswith("TypedPattern::new") or len(t[5]) < 2:
+                continue
+            di = di or DefIndex(g)
+            r = di.resolve(t[5][1])
+            for _ in range(4):  # `*r` where r is itself a copy of the captured reference
+                if r[0] == "place" and r[1][0] != 1:
+                    r2 = di.resolve(["cp", [r[1][0], []]])
+                    if r2[0] in ("place", "call", "rv", "const"):
+                        r = r2
+                        continue
+                break
+            n += 1
+            key = "element-type|%s" % (g.root.split("::", 1)[1] if "::" in g.root else g.root)
+            if r[0] == "place" and r[1][0] == 1:
+                ck.bad(R, key, "%s wraps each sub-pattern in a TypedPattern that carries a variable captured from the enclosing call — the declared type of the whole pattern — instead of a type made for the element: without an annotation that type is unknown and nothing happens, with an agreeing annotation on a destructuring `let` every element is typed as the whole aggregate (type error, or wrong words at run time)" % g.short, g.where(t))
+            else:
+                ck.ok(R, key, {"closure": g.short, "type_from": r[0]})
+    ck.floor(R, "sub_pattern_rewraps", n, 1)
+
+
 def run(ck, facts, tier):
     rule_optional_children(ck, facts)
     rule_record_layout(ck, facts)
@@ -325,6 +364,12 @@ def run(ck, facts, tier):
     rule_lookahead_nesting(ck, facts)
     rule_block_scope(ck, facts)
     rule_annotation_ambiguity(ck, facts)
+    rule_element_type(ck, facts)
+    # redundant parentheses: `(x = e)` is two sibling nodes inside the ParenExpr; the lowering of every kind whose parser
+    # calls parse_expr() must join them (shared with C04)
+    from . import c04 as _c04
+
+    _c04.rule_assignment_protocol(ck, facts)
     # a comment must end where the comment ends, or adding / editing one changes the program (model of the tokenizer's
     # comment combinators, shared with C13)
     from . import c13
